@@ -3,6 +3,7 @@ import T4V.Model.Lattice
 import T4V.Sexp
 import T4V.Model.Post
 import T4V.Model.PotTransform
+import T4V.Model.GeomComp
 /-! Wire encoding of Layer-B model inputs/outputs (S-expressions). -/
 namespace T4V
 
@@ -170,6 +171,25 @@ def runPotTransform (s : Sexp) : String :=
        | _, _ => "err bad-request")
     | _ => "err bad-request"
   | _, _, _, _, _ => "err bad-request"
+
+/-- `(gc (vols (v id F|R (a b)…)…) (cells (c id mathex rhohex|-)…))` → `ok (g namehex count id…)…` in block order -/
+def runGeomComp (s : Sexp) : String :=
+  let vols : Option (List GVol) := (s.field? "vols").bind fun vs => vs.args.mapM fun v => match v with
+      | .list (.atom "v" :: .atom id :: .atom f :: o) => do
+          pure ({ id := ← id.toNat?, fictive := f == "F", origin := ← decodePairs (.list (.atom "o" :: o)) } : GVol)
+      | _ => none
+  let cells : Option (List (Nat × GCell)) := (s.field? "cells").bind fun cs => cs.args.mapM fun c => match c with
+      | .list [.atom "c", .atom id, .atom m, .atom r] => do
+          let rho ← if r == "-" then pure none else (unhex r).map some
+          pure (← id.toNat?, ({ mat := ← unhex m, rho } : GCell))
+      | _ => none
+  match vols, cells with
+  | some vols, some cells =>
+    match geomComp (fun k => (cells.find? (·.1 == k)).map (·.2)) vols with
+    | none => "ok error"
+    | some gs => "ok " ++ " ".intercalate (gs.map fun (n, ids) =>
+        s!"(g {hex n} {ids.length} {" ".intercalate (ids.map toString)})")
+  | _, _ => "err bad-request"
 
 /-- `(inline (max X) (cells (cell id univ geom)…))` → every cell's geometry after `inline_cells` -/
 def runInline (s : Sexp) : String :=
